@@ -59,14 +59,12 @@ def has_nul(tree):
 
 def lex_exempt(tree):
     """parsed trees the character conditions [lex_hyps] of C17_roundtrip_through_tokenizer_partial are known not
-    to cover (Props/C17.v): an empty doctype name, a PI data starting with white space"""
+    to cover (Props/C17.v): a PI data starting with white space (the known finding)"""
     def f(nodes):
         for n in nodes:
             if n[0] == "E":
                 if f(n[5]):
                     return True
-            elif n[0] == "D" and n[1] == "":
-                return True
             elif n[0] == "P" and n[2][:1] in (" ", "\t", "\n"):
                 return True
         return False
